@@ -48,32 +48,75 @@ Definition wrap_parent (par : pref) (parv : tree) : pref * tree * list tree :=
   | _ => (PWrap par, Lst false [parv], [parv])
   end.
 
-(* x == True / x == False as Python compares (True == 1 == 1.0) *)
-Definition eq_pybool (t : tree) (b : bool) : bool :=
+(* The predicate literal after the (repaired) numeric conversion: for an int / float
+   field the literal is converted with int() / float(); a literal that does not
+   convert stays as it is (and then differs from every number). *)
+Inductive plit := LitStr (s : pstr) | LitBool (b : bool) | LitInt (z : Z) | LitFlt (h : Z).
+
+(* float(s) for the spellings the model covers: [sign] digits [ '.' [ '0' | '5' ] ];
+   result = twice the value; None = outside the model; a string float() rejects for
+   certain (no digit, letter other than e/E/n/N/i/I/f/F/a/A/t/T/y/Y) stays a string *)
+Definition py_float2 (s : pstr) : option plit :=
+  let '(neg, body) := match s with 45%N :: r => (true, r) | 43%N :: r => (false, r) | _ => (false, s) end in
+  let sgn (h : Z) : Z := if neg then (- h)%Z else h in
+  match split_once body [46%N] with
+  | None =>
+    if all_digits body then Some (LitFlt (sgn (2 * Z.of_N (digits_val body))%Z))
+    else if existsb (fun c => is_digit c || mem_chr c [46; 95; 101; 69; 110; 78; 105; 73; 102; 70; 97; 65; 116; 84; 121; 89]%N
+                              || (128 <=? c)%N || mem_chr c py_ws) s
+         then None else Some (LitStr s)
+  | Some (ip, fp) =>
+    if all_digits ip then
+      match fp with
+      | [] | [48%N] => Some (LitFlt (sgn (2 * Z.of_N (digits_val ip))%Z))
+      | [53%N] => Some (LitFlt (sgn (2 * Z.of_N (digits_val ip) + 1)%Z))
+      | _ => None
+      end
+    else None
+  end.
+
+Definition pred_literal (parv : tree) (v : pval) : option plit :=
+  match parv with
+  | Leaf (SInt _) | Leaf (SBool _) =>
+    match v with
+    | PvBool b => Some (LitInt (if b then 1 else 0))
+    | PvStr s => match py_int (strip s) with
+                 | IntOk z => Some (LitInt z)
+                 | IntFail => Some (LitStr s)
+                 | IntUnk => None
+                 end
+    end
+  | Leaf (SFlt _) =>
+    match v with
+    | PvBool b => Some (LitFlt (if b then 2 else 0))
+    | PvStr s => py_float2 (strip s)
+    end
+  | _ => Some (match v with PvStr s => LitStr s | PvBool b => LitBool b end)
+  end.
+
+Definition num2 (t : tree) : option Z :=   (* numeric value times two *)
   match t with
-  | Leaf (SBool x) => Bool.eqb x b
-  | Leaf (SInt z) => Z.eqb z (if b then 1 else 0)
-  | Leaf (SFlt h) => Z.eqb h (if b then 2 else 0)
-  | _ => false
+  | Leaf (SBool b) => Some (if b then 2 else 0)%Z
+  | Leaf (SInt z) => Some (2 * z)%Z
+  | Leaf (SFlt h) => Some h
+  | _ => None
   end.
 
-(* parent_node == expected_value *)
-Definition pred_eq (parv : tree) (v : pval) : bool :=
-  match v with
-  | PvStr s => match parv with Leaf (SStr s') => pstr_eqb s s' | _ => false end
-  | PvBool b => eq_pybool parv b
+Definition lit_eq (parv : tree) (l : plit) : bool :=
+  match l with
+  | LitStr s => match parv with Leaf (SStr s') => pstr_eqb s s' | _ => false end
+  | LitBool b => match num2 parv with Some h => Z.eqb h (if b then 2 else 0) | None => false end
+  | LitInt z => match num2 parv with Some h => Z.eqb h (2 * z) | None => false end
+  | LitFlt k => match num2 parv with Some h => Z.eqb h k | None => false end
   end.
 
-(* expected_value in parent_node *)
-Definition pred_in (parv : tree) (v : pval) : res bool :=
-  match parv, v with
-  | Leaf (SStr s'), PvStr s => Ok (contains s' s)
-  | Leaf (SStr _), PvBool _ => Raise ExType
-  | Leaf (SBytes _), _ => Raise ExType
-  | Leaf _, _ => Raise ExType
-  | Dict _ kvs, PvStr s => Ok (match lookup s kvs with Some _ => true | None => false end)
-  | Dict _ _, PvBool _ => Ok false
-  | Lst _ xs, _ => Ok (existsb (fun x => pred_eq x v) xs)
+(* isinstance(parent, (str, list, tuple, dict)) and literal in parent *)
+Definition lit_in (parv : tree) (l : plit) : res bool :=
+  match parv with
+  | Leaf (SStr s') => match l with LitStr s => Ok (contains s' s) | _ => Raise ExType end
+  | Leaf _ => Ok false
+  | Dict _ kvs => Ok (match l with LitStr s => (match lookup s kvs with Some _ => true | None => false end) | _ => false end)
+  | Lst _ xs => Ok (existsb (fun x => lit_eq x l) xs)
   end.
 
 Section find.
@@ -125,7 +168,7 @@ Fixpoint find (fuel : nat) (root : tree) (xs : list pstr) (par : pref) (parv : t
       else if nonempty name then
         (* ---------------- key step ---------------- *)
         if pstr_eqb name s_dotdot then
-          let segs := removelast (filter nonempty (split_chr c_slash fstr)) in
+          let segs := removelast (filter nonempty (split_chr c_slash (replace fstr [c_rb; c_lb] [c_rb; c_slash; c_lb]))) in
           do (root1, m1, F1) <- self_find root segs (PAt []) root s_root ;;
           do nxt <-
             match f_slot F1 with
@@ -205,14 +248,14 @@ Fixpoint find (fuel : nat) (root : tree) (xs : list pstr) (par : pref) (parv : t
         | IdxNone => Raise ExValue
         | IdxPred n op v =>
           if pstr_eqb n s_text then
-            match parv with
-            | Leaf (SInt _) | Leaf (SBool _) | Leaf (SFlt _) => Raise ExType   (* tuple item assignment *)
-            | _ =>
+            match pred_literal parv v with
+            | None => Unmodelled
+            | Some lit =>
               do cmp <-
                 match op with
                 | [o0; o1] =>
-                  do base <- (if N.eqb o1 61 then Ok (pred_eq parv v)
-                              else if N.eqb o1 126 then pred_in parv v
+                  do base <- (if N.eqb o1 61 then Ok (lit_eq parv lit)
+                              else if N.eqb o1 126 then lit_in parv lit
                               else Raise ExSyntax) ;;
                   if N.eqb o0 33 then Ok (negb base)
                   else if N.eqb o0 61 || N.eqb o0 126 then Ok base
@@ -252,7 +295,30 @@ Fixpoint find (fuel : nat) (root : tree) (xs : list pstr) (par : pref) (parv : t
                   end
               end
             | Dict _ _, None => Raise ExKey
-            | Lst _ _, _ => Raise ExType
+            | Lst _ items, Some s =>
+              if startswith s [c_lb] && endswith s [c_rb] then
+                match n0eval (removelast (tl s)) with
+                | EvUnk => Unmodelled
+                | EvStr _ => Raise ExType
+                | EvInt z =>
+                  match norm_idx (length items) z with
+                  | None => Raise ExIndex
+                  | Some i =>
+                    match nth_error items i, f_par F1 with
+                    | Some target, PAt pp =>
+                      let tpar := PAt (pp ++ [PIdx i]) in
+                      if is_list target then
+                        Ok (root1, m1, mkF tpar target None None (f_str F1) (Some (br s_new :: rest)))
+                      else
+                        let target' := Lst true [target] in
+                        Ok (replace_at root1 (pp ++ [PIdx i]) target', true,
+                            mkF tpar target' None None (f_str F1) (Some (br s_new :: rest)))
+                    | _, _ => Unmodelled
+                    end
+                  end
+                end
+              else Raise ExType
+            | Lst _ _, None => Raise ExType
             | Leaf _, _ => Raise ExType
             end
           else if pstr_eqb si s_star then
@@ -309,7 +375,8 @@ Fixpoint lfind (fuel : nat) (root : tree) (xs : list pstr) (par : pref) (parv : 
     let dict_find (child : tree) (cpar : pref) xs' fstr' : fres :=
       match child, cpar with
       | Dict c _, PAt cp =>
-        do (child', m, F) <- find c rl f child xs' (PAt []) child fstr' ;;
+        (* after the "fix:" commit the unbound recursion also works for a plain dict child *)
+        do (child', m, F) <- find true rl f child xs' (PAt []) child fstr' ;;
         Ok ((if m then replace_at root cp child' else root), m, rebase cp F)
       | _, _ => Unmodelled
       end in
@@ -386,20 +453,15 @@ End lfind.
 (* ---- public lookups --------------------------------------------------------------- *)
 Definition has_path_char (x : pstr) : bool := mem_chr c_slash x || mem_chr c_lb x.
 Definition funnelled (e : exn) : bool :=
-  match e with ExValue | ExIndex | ExType | ExSyntax => true | _ => false end.
+  match e with ExValue | ExIndex | ExKey | ExType | ExSyntax => true | _ => false end.
 
 (* result of a lookup: the tree afterwards and the value / default / exception *)
 Inductive lres := LVal (v : tree) | LDefault | LEmpty (* '' from the ? prefix *) | LRaise (e : exn).
 
-Definition fuel_for (root : tree) (x : pstr) : nat := 4 * length x + 40.
+Definition fuel_for (root : tree) (x : pstr) : nat := 8 * length x + 64.
 
-(* n0dict__._get *)
-Definition dict_get (fuel : nat) (root : tree) (x : pstr) (raise_exc rl : bool) : res (tree * lres) :=
-  let '(x, raise_exc, dflt) :=
-    match x with
-    | 63%N :: x' => (x', false, LEmpty)
-    | _ => (x, raise_exc, LDefault)
-    end in
+(* n0dict__._get, after the '?' prefix has been processed *)
+Definition dict_get_core (fuel : nat) (root : tree) (x : pstr) (raise_exc rl : bool) (dflt : lres) : res (tree * lres) :=
   if has_path_char x then
     match find true rl fuel root (tokenize x) (PAt []) root s_root with
     | Raise e =>
@@ -422,6 +484,12 @@ Definition dict_get (fuel : nat) (root : tree) (x : pstr) (raise_exc rl : bool) 
     | _ => Unmodelled
     end.
 
+Definition dict_get (fuel : nat) (root : tree) (x : pstr) (raise_exc rl : bool) : res (tree * lres) :=
+  match x with
+  | 63%N :: x' => dict_get_core fuel root x' false rl LEmpty
+  | _ => dict_get_core fuel root x raise_exc rl LDefault
+  end.
+
 Definition unwrap_single (r : lres) : lres :=
   match r with
   | LVal (Lst _ [v]) => LVal v
@@ -433,19 +501,13 @@ Definition dict_get_pub fuel root x := dict_get fuel root x false true.
 Definition dict_first fuel root x :=
   do (r, v) <- dict_get fuel root x false false ;; Ok (r, unwrap_single v).
 
-(* n0list_._get for a non-empty str xpath *)
-Definition list_get (fuel : nat) (root : tree) (x : pstr) (raise_exc rl : bool) : res (tree * lres) :=
-  match x with
-  | [] => Ok (root, LDefault)
-  | _ =>
-  let '(x, raise_exc, dflt) :=
-    match x with
-    | 63%N :: x' => (x', false, LEmpty)
-    | _ => (x, raise_exc, LDefault)
-    end in
+(* n0list_._get for a str xpath, after the '?' prefix has been processed *)
+Definition list_get_core (fuel : nat) (root : tree) (x : pstr) (raise_exc rl : bool) (dflt : lres) : res (tree * lres) :=
   if has_path_char x then
     match lfind rl fuel root (tokenize x) (PAt []) root s_root with
-    | Raise e => Ok (root, LRaise e)
+    | Raise e =>
+      if funnelled e then Ok (root, if raise_exc then LRaise e else dflt)
+      else Ok (root, LRaise e)
     | Ok (root', _, F) =>
       if rest_falsy (f_rest F) then
         match f_val F with Some v => Ok (root', LVal v) | None => Unmodelled end
@@ -460,9 +522,15 @@ Definition list_get (fuel : nat) (root : tree) (x : pstr) (raise_exc rl : bool) 
       | Some i => match nth_error items i with Some v => Ok (root, LVal v) | None => Unmodelled end
       | None => Ok (root, if raise_exc then LRaise ExIndex else dflt)
       end
-    | Lst _ _, EvStr _ => Ok (root, LRaise ExType)
+    | Lst _ _, EvStr _ => Ok (root, if raise_exc then LRaise ExType else dflt)
     | _, _ => Unmodelled
-    end
+    end.
+
+Definition list_get (fuel : nat) (root : tree) (x : pstr) (raise_exc rl : bool) : res (tree * lres) :=
+  match x with
+  | [] => Ok (root, LDefault)
+  | 63%N :: x' => list_get_core fuel root x' false rl LEmpty
+  | _ => list_get_core fuel root x raise_exc rl LDefault
   end.
 
 Definition list_first fuel root x :=
